@@ -10,6 +10,7 @@ import (
 	"path/filepath"
 	"strconv"
 	"strings"
+	"sync"
 
 	shell_operator "github.com/flant/shell-operator/pkg/shell-operator"
 )
@@ -44,6 +45,14 @@ case "$kind" in
 esac
 exit 0
 `
+
+var c15HookOnce sync.Once
+
+func c15SharedHook(r *Run) string {
+	p := filepath.Join(r.Scratch, "c15-hook.sh")
+	c15HookOnce.Do(func() { _ = os.WriteFile(p, []byte(c15HookScript), 0o755) })
+	return p
+}
 
 type c15E2E struct {
 	Rules   []c15Rule
@@ -102,7 +111,12 @@ func c15RunE2E(r *Run, c *Case, e c15E2E) {
 		}
 		cfg := fmt.Sprintf(`{"configVersion":"v1","kubernetesCustomResourceConversion":[{"name":"conv%d","crdName":"things.g.io","conversions":[%s]}]}`, h, strings.Join(convs, ","))
 		_ = os.WriteFile(filepath.Join(ctl, hookName(h)+".cfg"), []byte(cfg), 0o644)
-		_ = os.WriteFile(filepath.Join(hooksDir, hookName(h)), []byte(c15HookScript), 0o755)
+		// a hard link to the one script written before the parallel cases start: writing an
+		// executable while another case forks gives "text file busy"
+		if err := os.Link(c15SharedHook(r), filepath.Join(hooksDir, hookName(h))); err != nil {
+			c.Inconcl = "cannot link the hook script: " + err.Error()
+			return
+		}
 	}
 	_ = os.WriteFile(filepath.Join(ctl, "counter"), []byte("0\n"), 0o644)
 	_ = os.WriteFile(filepath.Join(ctl, "script"), []byte(strings.Join(e.Script, "\n")+"\n"), 0o644)
@@ -265,6 +279,7 @@ func c15ShortestCount(rules []c15Rule, a, b string) (int, int) {
 }
 
 func c15E2ECorpus(r *Run) {
+	c15SharedHook(r)
 	lin := []c15Rule{{"v1", "v2"}, {"g.io/v2", "v3"}, {"v3", "g.io/v2"}}
 	r.One(10, func(c *Case, _ *Rng) {
 		c.Desc = "corpus: the hook of step 1 of 2 answers with its own failedMessage"
